@@ -2680,6 +2680,11 @@ let a_empty =
 let a_t4 t =
   t.t4
 
+(** val a_size : trie -> nat **)
+
+let a_size =
+  size
+
 (** val a_arm : nat option -> ast -> ast **)
 
 let a_arm =
